@@ -189,6 +189,9 @@ uint32_t File::defaultLogContainerSize() const {
 
 void File::setDefaultLogContainerSize(uint32_t defaultLogContainerSize) {
     m_uncompressedFile.setDefaultLogContainerSize(defaultLogContainerSize);
+
+    /* the compression thread reads one whole container at a time: keep the back-pressure threshold in step, as the constructor does */
+    m_uncompressedFile.setBufferSize(defaultLogContainerSize);
 }
 
 ObjectHeaderBase * File::createObject(ObjectType type) {
